@@ -94,12 +94,61 @@ def gen_cases(ctx):
                    "instance": {"cls": "benchmark"},
                    "filter": {"names": [rng.choice(gen.FILTER_NAMES)], "form": "function"},
                    "policy": "random_ready"}
+    for i in range(ctx.scale(12, 600)):
+        # process-wide growth: every case brings instances with more machines than ever before
+        yield {"kind": "growing", "seed": rng.randrange(2**31), "first_m": 41 + 4 * i, "steps": 4,
+               "instance": {"cls": "growing"}}
     for i in range(ctx.scale(150, 24000)):
         inst = gen.gen_instance(rng, rng.choice(gen.POSITIVE_CLASSES), max_jobs=3,
                                 max_machines=3, max_ops=rng.randint(5, 7 if ctx.tier == "quick" else 8))
         fs = gen.gen_filter_spec(rng)
         yield {"kind": "tree", "instance": inst, "filter": fs,
                "seed": rng.randrange(2**31), "limit": 300}
+
+
+_LARGEST_M = [40]     # larger than any machine count the other cases of this process use
+
+
+def run_growing(ctx, case):
+    """A long-lived process meets instances with more and more machines (larger than any seen
+    before in the process); on each, the first operations are dispatched without asking the
+    dispatcher anything, then the clock is read: filtering never changes it."""
+    rng = random.Random(case["seed"])
+    M0 = max(case["first_m"], _LARGEST_M[0] + 1)
+    for i in range(case["steps"]):
+        M = M0 + i
+        _LARGEST_M[0] = M
+        hi = [M - 1, M - 2, rng.randrange(M)]
+        inst = {"cls": "growing",
+                "durations": [[rng.randint(1, 6) for _ in range(rng.randint(2, 3))] for _ in range(3)],
+                "machines": None}
+        inst["machines"] = [[[rng.choice([0, 1] + hi)] for _ in job] for job in inst["durations"]]
+        inst["machines"][0][0] = [M - 1]
+        run = Run(inst, {"names": ["non_idle_machines"] if case["seed"] % 2 else [rng.choice(gen.FILTER_NAMES)],
+                         "form": "function"})
+        d, r = run.d, run.r
+        for _ in range(rng.randint(1, 3) if i else 0):
+            o, m = run.choose(rng, "random_ready")     # chosen from the reference, no query
+            run.dispatch(o, m)
+        last = None
+        while True:
+            if run.done() and case["seed"] % 4 < 2:
+                break       # (the last question of an episode is usually asked before its last dispatch)
+            now = d.current_time()
+            ctx.count("clock_steps_checked")
+            ctx.count("clock_reads_on_growing_instances")
+            if now != r.current_time(None) or (last is not None and now < last):
+                ctx.violation("c06_clock_differs_from_reference",
+                              {"got": now, "want": r.current_time(None), "history": list(r.history),
+                               "filter": run.filter_names, "instance": inst,
+                               "who": "first query in the middle of an episode, more machines than ever before"})
+                return
+            last = now
+            if run.done():
+                break
+            o, m = run.choose(rng, "random_available")
+            run.dispatch(o, m)
+    ctx.note_case(case, True, fingerprint="growing:%s" % case["seed"])
 
 
 def one_history(ctx, case, explicit=None, instance=None):
@@ -127,7 +176,26 @@ def one_history(ctx, case, explicit=None, instance=None):
                   dispatcher=Dispatcher(run.instance,
                                         ready_operations_filter=d.ready_operations_filter))
         ctx.count("histories_with_a_sibling_sharing_the_filter")
-    fork_kind = case.get("fork") if explicit is None else None
+    raiser = None
+    if case["seed"] % 9 == 6 and explicit is None and not case.get("solver_steps"):
+        # an observer that reads the clock inside update(), followed by one whose n-th update raises
+        # once; the caller catches the error and carries on (with another operation if the library
+        # withdrew the dispatch)
+        from job_shop_lib.dispatching import DispatcherObserver
+
+        class ClockReader(DispatcherObserver):
+            _is_singleton = False
+
+            def update(self, scheduled_operation):
+                self.dispatcher.current_time(); self.dispatcher.completed_operations()
+
+            def reset(self):
+                pass
+        from .c13 import make_raiser
+        ClockReader(d)
+        raiser = make_raiser(d, rng)
+        ctx.count("histories_with_a_failing_observer_behind_a_clock_reader")
+    fork_kind = case.get("fork") if explicit is None and raiser is None else None
     fork_at = rng.randint(1, max(1, r.num_ops - 1)) if fork_kind else None
     last = d.current_time()
     ctx.count("clock_steps_checked")
@@ -183,7 +251,27 @@ def one_history(ctx, case, explicit=None, instance=None):
                 completed = set(x.operation_id for x in d.completed_operations())
                 continue
             o, m = run.choose(rng, "random_ready")
-        run.dispatch(o, m)
+        try:
+            run.dispatch(o, m)
+        except RuntimeError:
+            if raiser is None:
+                raise
+            ctx.count("dispatches_with_a_failing_observer")
+            if any(so.operation is run.op(o) for lst in d.schedule.schedule for so in lst):
+                r.apply(o, m)
+            else:
+                # the library withdrew the dispatch: the clock is read (it may not have moved
+                # back) and the caller goes on, most likely with another operation
+                ctx.count("dispatches_withdrawn_after_an_observer_failure")
+                now_w = d.current_time()
+                done_w = set(x.operation_id for x in d.completed_operations())
+                if now_w < last or not completed <= done_w:
+                    ctx.violation("c06_clock_went_backwards",
+                                  {"before": last, "after": now_w, "history": list(r.history),
+                                   "driver": "a dispatch withdrawn after an observer failure"})
+                    return
+                last, completed = now_w, done_w
+                continue
         if not fractional and not run.done() and rng.random() < 0.25:
             # built-in rules and scoring functions are clients of the cached lists as well:
             # evaluating one must not move the clock
@@ -396,6 +484,8 @@ def run_case(ctx, case):
         ctx.count("benchmark_reloads")
         ctx.note_case(case, True, fingerprint="reload:" + case["name"])
         return
+    if case["kind"] == "growing":
+        return run_growing(ctx, case)
     if case["kind"] == "history":
         run, adv = one_history(ctx, case)
         fp = hash((gen.fingerprint(case["instance"]), str(case.get("filter")), tuple(run.r.history)))
